@@ -651,6 +651,13 @@ def success_exits(ctx):
                 cc.level = ctx.level + 1
                 if not success_exits(cc.settle()):
                     continue
+            if cb is None and t[0] == "call" and t[1].startswith("cw_storage_plus::") and t[1].endswith("::update") and t[2] and t[2][-1][0] == "closure":
+                # `ITEM.update(storage, closure)` as the tail expression: it succeeds only if the closure can
+                uc = update_closure_ctx(ctx.prog, t, ctx.assumptions)
+                if uc is not None:
+                    uc.level = ctx.level + 1
+                    if not success_exits(uc.settle()):
+                        continue
         out.append(e)
     return out
 
